@@ -21,7 +21,7 @@ RULE = (
     "an id., and as a page range) x 3 pools."
 )
 ASSUMPTIONS = [
-    "six pre-validated value pools of party names / reporters / pages (all enumerated in both tiers)",
+    "seven pre-validated value pools of party names / reporters / pages (all enumerated in both tiers)",
     "id. offsets {+2, -5, +500}: +2 is within the opinion, -5 before its first page, +500 implausibly far",
     "nothing is asserted about ambiguous references (C07 covers them) nor about an id. that follows one",
 ]
@@ -34,6 +34,8 @@ POOLS = [
     [("Adams", "Baker", "100", "F.2d", "200"), ("Clark", "Dunn", "100", "F.3d", "200"), ("Evans", "Flynn", "100", "F.", "350")],
     # two-letter party names (shorter than the three characters a *reference* citation needs; short forms and supra do not have that floor)
     [("Wu", "Li", "13", "Cal. 3d", "804"), ("Smith", "Ng", "13", "Cal. 3d", "100"), ("Ito", "Oz", "2", "F.2d", "20")],
+    # party names with an apostrophe / a non-ASCII letter
+    [("United States", "O'Brien", "391", "U.S.", "367"), ("Smith", "D'Arcy", "391", "U.S.", "500"), ("Pe\u00f1a", "Mu\u00f1oz", "2", "F.2d", "20")],
     # variation spellings of unambiguous reporters, dated before / after the edition's recorded range in reporters-db
     [("Marbury", "Madison", "5", "U. S.", "137", "1803"), ("Hylton", "Ware", "5", "U. S.", "199", "1796"), ("Adams", "Baker", "900", "F.Supp.", "100", "1995")],
 ]
